@@ -297,6 +297,9 @@ struct World {
     uris: std::vec::Vec<String>,
     labels: std::collections::BTreeMap<String_, u64>,
     cases: std::vec::Vec<(String_, String_)>,
+    tag: &'static str,                       // "d:" in directed scenarios: their labels are deterministic
+    last_mut: String_,                       // kind of the last state-changing call
+    last_verify: std::vec::Vec<(usize, bool)>,
 }
 
 impl World {
@@ -327,7 +330,7 @@ impl World {
         for &i in &iaddrs { for &t in &sz.topics { cids.push((idc::generate_claim_id(&e, &addrs[i], t), i, t)); } }
         let uris = std::vec![String::from_str(&e, ""), String::from_str(&e, "https://example.com/kyc"), String::from_str(&e, "ipfs://claim")];
         World { e, addrs, ctis, irss, idents, issuers, bogus, accounts, verifier, iaddrs, daddrs, topics: sz.topics.clone(), keys,
-                extra_keys: std::vec![], net, now, now0: now, blobs: Blobs::default(), sigs: std::vec![], revq: std::vec![], cids, items: std::vec![], uris, labels: Default::default(), cases: std::vec![] }
+                extra_keys: std::vec![], net, now, now0: now, blobs: Blobs::default(), sigs: std::vec![], revq: std::vec![], cids, items: std::vec![], uris, labels: Default::default(), cases: std::vec![], tag: "", last_mut: "start".into(), last_verify: std::vec![] }
     }
     fn a(&self, i: usize) -> &Address { &self.addrs[i] }
     fn an(&self, a: &Address) -> String_ {
@@ -368,7 +371,7 @@ impl World {
     }
 
     // ---------------- full observation ----------------
-    fn label(&mut self, l: &str) { *self.labels.entry(l.to_string()).or_insert(0) += 1; }
+    fn label(&mut self, l: &str) { *self.labels.entry(format!("{}{}", self.tag, l)).or_insert(0) += 1; }
     fn observe(&mut self) -> String_ {
         let e = self.e.clone();
         let topics = self.topics.clone();
@@ -411,6 +414,7 @@ impl World {
                         Some(c) => {
                             let confirmed = matches!(ClaimIssuerClientX::new(&e, self.a(i)).try_is_claim_valid(self.a(d), &t, &c.scheme, &c.signature, &c.data), Ok(Ok(_)));
                             self.label(if confirmed { "held_claim/confirmed" } else { "held_claim/rejected" });
+                            let mut why = "not_an_issuer";
                             let info = if self.issuers.contains(&i) {
                                 let icl = IssuerCClient::new(&e, self.a(i));
                                 let sg = to_vec(&c.signature);
@@ -420,8 +424,13 @@ impl World {
                                 };
                                 let rv = icl.revoked(self.a(d), &t, &c.data);
                                 let nc = icl.nonce(self.a(d), &t);
+                                let dv = to_vec(&c.data);
+                                why = if ka.is_none() { "layout" } else if ka == Some(false) { "key_not_allowed" } else if dv.len() < 16 { "short_data" }
+                                      else if { let mut u = [0u8; 8]; u.copy_from_slice(&dv[8..16]); u64::from_be_bytes(u) <= self.now } { "expired" }
+                                      else if rv { "revoked" } else if c.topic != t || c.issuer != *self.a(i) { "other_topic_or_issuer_signature" } else { "signature_or_nonce" };
                                 format!("(Some ({}, {}, {}))", opt(ka.map(b)), b(rv), nc)
                             } else { "None".into() };
+                            let l = if confirmed { format!("held/s{}/confirmed", c.scheme) } else { format!("held/s{}/rejected_{}", c.scheme, why) }; self.label(&l);
                             let cc = self.claim_coq(&c);
                             row.push(format!("(Some (CD {} {} {}))", cc, b(confirmed), info));
                         }
@@ -449,6 +458,13 @@ impl World {
         let vcl = VerifierCClient::new(&e, self.a(self.verifier));
         let vc = opt(vcl.try_cti().ok().and_then(|r| r.ok()).map(|a| self.an(&a)));
         let vr = opt(vcl.try_irs().ok().and_then(|r| r.ok()).map(|a| self.an(&a)));
+        if let Ok(Ok(ca)) = vcl.try_cti() { if let Some(ci) = self.addrs.iter().position(|x| *x == ca) { if self.ctis.contains(&ci) {
+            let m = CtiCClient::new(&e, &ca).get_claim_topics_and_issuers();
+            if m.is_empty() { self.label("vstate/no_topic_required"); }
+            if m.iter().any(|(_, v)| v.is_empty()) { self.label("vstate/topic_without_issuer"); }
+            if m.iter().any(|(_, v)| v.len() >= 2) { self.label("vstate/topic_with_several_issuers"); }
+            if m.len() >= 2 { self.label("vstate/several_topics_required"); }
+        } } }
         let mut vs: std::vec::Vec<String_> = std::vec![];
         for &a in &self.accounts.clone() {
             let ok = matches!(vcl.try_verify_identity(self.a(a)), Ok(Ok(_)));
@@ -461,7 +477,9 @@ impl World {
 
     fn record(&mut self, label: &str, call: String_, outcome: String_) {
         let tag = if outcome == "Fail" { "fail" } else { "ok" };
-        self.cases.push((format!("{}/{}", label, tag), call.clone()));
+        self.cases.push((format!("{}{}/{}", self.tag, label, tag), call.clone()));
+        const READ_ONLY: [&str; 13] = ["verify", "is_claim_valid", "authorized_for", "message", "identifier", "extract", "encode", "decode", "expired", "validate_claim", "recovery_target", "set_cti_noop", "none"];
+        if !READ_ONLY.contains(&label) && tag == "ok" { self.last_mut = label.to_string(); }
         let o = self.observe();
         self.items.push(format!("({}, {}, {})", call, outcome, o));
     }
@@ -643,6 +661,11 @@ impl World {
     }
     fn verify(&mut self, a: usize) -> bool {
         let o = unit(self.ver().try_verify_identity(self.a(a))); let ok = o != "Fail";
+        let f = |b: bool| if b { "ok" } else { "fail" };
+        if let Some(pos) = self.last_verify.iter().position(|x| x.0 == a) {
+            let prev = self.last_verify[pos].1; self.last_verify[pos].1 = ok;
+            let l = format!("vt/{}/{}->{}", self.last_mut, f(prev), f(ok)); self.label(&l);
+        } else { self.last_verify.push((a, ok)); let l = format!("vt/first/{}", f(ok)); self.label(&l); }
         self.record("verify", format!("Verify {}", self.nn(a)), o); ok
     }
     fn q_validate_claim(&mut self, c: &ClaimSpec, t: u32, i: usize, d: usize) {
@@ -751,10 +774,11 @@ fn fixture(w: &mut World, ts: &[u32], issuer_topics: &[(usize, std::vec::Vec<u32
 
 /// scenarios that reach the limits of the registries (own universes)
 fn limit_scenario(id: usize, rng: &mut Rng) -> TraceResult {
+    let mk = |rng: &mut Rng, sz: &Sizes| { let mut w = World::new(rng, sz); w.tag = "d:"; w };
     match id {
         0 => { // MAX_ISSUERS: 51 candidate issuers for one topic
             let sz = Sizes { ctis: 1, irss: 1, idents: 1, issuers: 0, bogus: MAX_ISSUERS as usize + 1, accounts: 1, topics: std::vec![1], keys_per_scheme: 1 };
-            let mut w = World::new(rng, &sz);
+            let mut w = mk(rng, &sz);
             let c0 = w.ctis[0];
             w.add_topic(c0, 1);
             for k in 0..w.bogus.len() { let x = w.bogus[k]; w.add_issuer(c0, x, &[1]); }
@@ -764,7 +788,7 @@ fn limit_scenario(id: usize, rng: &mut Rng) -> TraceResult {
         }
         1 => { // MAX_KEYS_PER_TOPIC: 51 keys for one topic
             let sz = Sizes { ctis: 1, irss: 1, idents: 1, issuers: 1, bogus: 0, accounts: 1, topics: std::vec![1], keys_per_scheme: 1 };
-            let mut w = World::new(rng, &sz);
+            let mut w = mk(rng, &sz);
             let (c0, i0) = (w.ctis[0], w.issuers[0]);
             w.extra_keys.push((std::vec![1, 7], ED25519)); w.extra_keys.push((std::vec![1 + MAX_KEYS_PER_TOPIC as u8, 7], ED25519));
             w.add_topic(c0, 1); w.add_issuer(c0, i0, &[1]);
@@ -774,7 +798,7 @@ fn limit_scenario(id: usize, rng: &mut Rng) -> TraceResult {
             w.finish("MAX_KEYS_PER_TOPIC")
         }
         3 => { // long gaps: whatever was set must still be there, however many ledgers close without anybody reading it
-            let mut w = World::new(rng, &std_sizes());
+            let mut w = mk(rng, &std_sizes());
             let (c0, r0) = (w.ctis[0], w.irss[0]);
             let (i0, i1) = (w.issuers[0], w.issuers[1]);
             let (d0, d1) = (w.idents[0], w.idents[1]);
@@ -801,7 +825,7 @@ fn limit_scenario(id: usize, rng: &mut Rng) -> TraceResult {
             w.finish("long gaps: every stored item persists")
         }
         4 => { // one update dropping several topics at once, add/drop mixes
-            let mut w = World::new(rng, &std_sizes());
+            let mut w = mk(rng, &std_sizes());
             let c0 = w.ctis[0];
             let (i0, i1, i2) = (w.issuers[0], w.issuers[1], w.issuers[2]);
             let d0 = w.idents[0]; let a0 = w.accounts[0];
@@ -819,7 +843,7 @@ fn limit_scenario(id: usize, rng: &mut Rng) -> TraceResult {
             w.finish("issuer topic updates dropping several topics at once")
         }
         5 => { // an identity that serves, under the id of (issuer, required topic), a genuine claim for another topic
-            let mut w = World::new(rng, &std_sizes());
+            let mut w = mk(rng, &std_sizes());
             let (c0, c1) = (w.ctis[0], w.ctis[1]);
             let i0 = w.issuers[0]; let d0 = w.idents[0]; let a0 = w.accounts[0];
             fixture(&mut w, &[1], &[(i0, std::vec![1])]);
@@ -835,7 +859,7 @@ fn limit_scenario(id: usize, rng: &mut Rng) -> TraceResult {
             w.finish("claims served under the id of another topic")
         }
         6 => { // per-topic issuer lists in every registration order, every issuer removed in turn
-            let mut w = World::new(rng, &std_sizes());
+            let mut w = mk(rng, &std_sizes());
             let (c0, c1) = (w.ctis[0], w.ctis[1]);
             let is = [w.issuers[0], w.issuers[1], w.issuers[2]];
             let d0 = w.idents[0]; let a0 = w.accounts[0];
@@ -854,9 +878,35 @@ fn limit_scenario(id: usize, rng: &mut Rng) -> TraceResult {
             }
             w.finish("issuer lists in every registration order")
         }
+        7 => { // every defect under every scheme, asked directly (claims that are not held) and through a held claim
+            let mut w = mk(rng, &std_sizes());
+            let (c0, i0, d0, a0) = (w.ctis[0], w.issuers[0], w.idents[0], w.accounts[0]);
+            fixture(&mut w, &[1], &[(i0, std::vec![1])]);
+            for k in [2usize, 4] { let (pk, sc) = (w.keys[k].pk.clone(), w.keys[k].scheme); w.allow_key(i0, &pk, c0, sc, 1); }
+            for k in [0usize, 2, 4] { for df in 0..NDEFECTS {
+                let c = w.make_claim(rng, d0, i0, 1, k, df);
+                let ok = w.is_claim_valid(i0, d0, 1, c.scheme, &c.sig.clone(), &c.data.clone());
+                let l = format!("isvalid/s{}/{}/{}", w.keys[k].scheme, defect_name(df), if ok { "ok" } else { "fail" }); w.label(&l);
+                if (df % 4) as usize == k / 2 { w.force_claim(d0, i0, 1, 1, &c); w.verify(a0); }
+            } }
+            w.finish("every defect under every scheme")
+        }
+        8 => { // a claim id dangling under a required topic: the code refuses although another issuer's claim is valid
+            let mut w = mk(rng, &std_sizes());
+            let (c0, i0, i1, d0, a0) = (w.ctis[0], w.issuers[0], w.issuers[1], w.idents[0], w.accounts[0]);
+            fixture(&mut w, &[1], &[(i1, std::vec![1]), (i0, std::vec![1])]);     // i1 is listed before i0
+            let c = w.far_claim(d0, i0, 1, 1); w.add_claim(d0, &c); let before = w.verify(a0);
+            w.force_claim(d0, i1, 2, 2, &ClaimSpec { topic: 1, ..c.clone() }); w.remove_claim(d0, i1, 2);   // dangling under topic 2 (not required)
+            let v = w.verify(a0); w.label(&format!("sit/dangling_unrequired_id/{}->{}", before, v));
+            let g = ClaimSpec { topic: 2, ..c.clone() };
+            w.force_claim(d0, i1, 1, 1, &g); w.remove_claim(d0, i1, 1);                 // id of (i1, 1) stays listed under topic 1, no claim
+            let after = w.verify(a0); w.label(&format!("sit/dangling_required_id/{}->{}", v, after));
+            w.update_issuer(c0, i1, &[1]); w.remove_issuer(c0, i1); w.verify(a0);       // i1 de-listed: its dangling id no longer matters
+            w.finish("dangling claim ids")
+        }
         _ => { // MAX_REGISTRIES_PER_KEY: 22 (topic, registry) pairs for one key
             let sz = Sizes { ctis: 2, irss: 1, idents: 1, issuers: 1, bogus: 0, accounts: 1, topics: (1..=11).collect(), keys_per_scheme: 1 };
-            let mut w = World::new(rng, &sz);
+            let mut w = mk(rng, &sz);
             let (c0, c1, i0) = (w.ctis[0], w.ctis[1], w.issuers[0]);
             let all: std::vec::Vec<u32> = (1..=11).collect();
             for &c in &[c0, c1] { for &t in &all { w.add_topic(c, t); } w.add_issuer(c, i0, &all); }
@@ -867,11 +917,11 @@ fn limit_scenario(id: usize, rng: &mut Rng) -> TraceResult {
         }
     }
 }
-const NLIMITS: usize = 7;
+const NLIMITS: usize = 9;
 
 fn scenario(id: usize, rng: &mut Rng) -> TraceResult {
     let sz = if id == 6 { Sizes { ctis: 1, irss: 1, idents: 1, issuers: 1, bogus: 1, accounts: 1, topics: (101..=116).collect(), keys_per_scheme: 1 } } else { std_sizes() };
-    let mut w = World::new(rng, &sz);
+    let mut w = World::new(rng, &sz); w.tag = "d:";
     if id == 6 {
         let c0 = w.ctis[0];
         for t in 1..=16u32 { w.add_topic(c0, 100 + t); }
@@ -945,6 +995,7 @@ fn scenario(id: usize, rng: &mut Rng) -> TraceResult {
         4 => { // identities: unknown account, bogus identity, recovery, second registry
             fixture(&mut w, &[1], &[(i0, std::vec![1])]);
             let c = w.make_claim(rng, d0, i0, 1, 0, 0); w.add_claim(d0, &c); w.verify(a0); w.verify(a2);
+            w.remove_issuer(c0, i1); w.modify_identity(r0, a2, d0); w.remove_identity(r0, a2); w.recover_identity(r0, a2, a0); w.recover_identity(r0, a0, a1);   // all refused
             w.recover_identity(r0, a0, a2); w.verify(a0); w.verify(a2); w.q_recovery_target(a0);
             w.add_identity(r0, a0, d1, 1); w.modify_identity(r0, a2, x); w.verify(a2);
             w.modify_identity(r0, a2, d0); w.remove_identity(r0, a1); w.verify(a1);
